@@ -234,6 +234,20 @@ class StmtMixin:
         return outs
 
     def eval_hint(self, node, st, hint):
+        if hint is not None and isinstance(node, ast.IfExp) and hint.key in self.coercions:
+            # `x if c else None` assigned to a slot of an abstract sort: coerce each branch
+            c = self.truthy(self.eval(node.test, st), node)
+            self.guards.append(c)
+            try:
+                a = self.coerce(self.eval(node.body, st), hint, node)
+            finally:
+                self.guards.pop()
+            self.guards.append(z3.Not(c))
+            try:
+                b = self.coerce(self.eval(node.orelse, st), hint, node)
+            finally:
+                self.guards.pop()
+            return Val(hint, z3.If(c, a.t, b.t))
         if hint is not None:
             if isinstance(node, ast.List) and not node.elts:
                 return self.empty_of(hint)
